@@ -212,7 +212,7 @@ func c48FOrder(r *vkit.Run, ev []fEvent, script, who, pathClass string, w map[st
 		if len(calls) == 0 {
 			if p == bfe_module.HandleRequestFinish {
 				r.Violation("order:HandleRequestFinish:chain-never-ran:"+who+pathClass,
-					fmt.Sprintf("no filter was called at HandleRequestFinish for %s although it is over (terminal path %s, script %q)", strings.TrimSuffix(who, "-after-")+" request", pathClass, script), w)
+					fmt.Sprintf("no filter was called at HandleRequestFinish for %s although it is over (request 1 ended through %s, script %q)", map[string]string{"": "request 1", "probe-after-": "request 2 (the probe)"}[who], pathClass, script), w)
 			}
 			continue
 		}
